@@ -235,6 +235,19 @@ impl Unifiable {
                     }
                 }
 
+                // If the other term is a variable whose chain of bindings
+                // ends at this variable, the two are already aliased.
+                // Binding again would create a cycle.
+                let mut end = other;
+                while let Unifiable::LogicVar{id: id2, name: _} = end {
+                    if *id2 == id { return Some(Rc::clone(ss)); }
+                    if *id2 >= length_src { break; }
+                    match &ss[*id2] {
+                        Some(term) => { end = &*term; },
+                        None => { break; },
+                    }
+                }
+
                 let mut length_dst = length_src;
                 if id >= length_dst { length_dst = id + 1; }
 
